@@ -3,7 +3,7 @@
 set -euo pipefail
 S="$1"; RACE="${2:-}"
 REPO="${VERIF_REPO:-/repo}"
-V=/verif
+V="$(cd "$(dirname "${BASH_SOURCE[0]}")/.." && pwd)"
 export GOFLAGS=-mod=mod GOPROXY=off GOSUMDB=off GOTOOLCHAIN=local CGO_ENABLED=0
 mkdir -p "$S"
 # 1. instrumenter (built with the default go; cached binary keyed by its source)
